@@ -123,68 +123,102 @@ type c01Opt struct {
 }
 
 // eval runs one case through station, client and reference and judges it.
-func (h *c01Harness) eval(in c01Input, cfg *c01Config, opt c01Opt) (S, C, R c01Out) {
+// c01Prep is everything that is decided before the station sees the message.
+type c01Prep struct {
+	secret     []byte
+	typed      proto.Message
+	cl         *c01Client
+	tp         *anypb.Any
+	eff        c01Input // the case with the parameters that are actually sent
+	normalised bool
+	sel        *phantoms.PhantomIPSelector
+	known      bool
+}
+
+func (h *c01Harness) prepare(in c01Input, cfg *c01Config, opt c01Opt) *c01Prep {
 	rec := h.rec
-	rec.Case(map[string]interface{}{"in": in, "cfg": cfg})
-	rec.Count("evaluations", 1)
-	secret, err := hex.DecodeString(in.Secret)
-	if err != nil {
+	p := &c01Prep{eff: in}
+	var err error
+	if p.secret, err = hex.DecodeString(in.Secret); err != nil {
 		h.t.Fatalf("infrastructure: bad secret in case: %v", err)
 	}
-	typed := c01TypedParams(in.Tr, in.P)
-	cl := h.clientParams(in, typed)
+	p.typed = c01TypedParams(in.Tr, in.P)
+	p.cl = h.clientParams(in, p.typed)
 
 	// what the station receives
-	var tp *anypb.Any
-	eff := in
 	if in.P.Kind != "absent" {
-		msg := typed
-		if in.P.Kind == "set" && opt.viaClient && cl.err == "" && !c01NilMsg(cl.sent) {
-			msg = cl.sent
+		msg := p.typed
+		if in.P.Kind == "set" && opt.viaClient && p.cl.err == "" && !c01NilMsg(p.cl.sent) {
+			msg = p.cl.sent
 		}
-		if tp, err = c01Any(msg, in.P.URL); err != nil {
+		if p.tp, err = c01Any(msg, in.P.URL); err != nil {
 			h.t.Fatalf("infrastructure: anypb: %v", err)
 		}
-		eff.P = c01Effective(in.P, msg)
+		p.eff.P = c01Effective(in.P, msg)
 	}
-	normalised := false
-	if in.P.Kind == "set" && !opt.viaClient && cl.err == "" && !c01NilMsg(cl.sent) {
-		a, b := c01Effective(in.P, typed), c01Effective(in.P, cl.sent)
+	if in.P.Kind == "set" && !opt.viaClient && p.cl.err == "" && !c01NilMsg(p.cl.sent) {
+		a, b := c01Effective(in.P, p.typed), c01Effective(in.P, p.cl.sent)
 		if c01Bool(a.Rand) != c01Bool(b.Rand) || (in.Tr == "prefix" && (a.Prefix == nil) != (b.Prefix == nil)) ||
 			(a.Prefix != nil && b.Prefix != nil && *a.Prefix != *b.Prefix) {
-			normalised = true
+			p.normalised = true
 			rec.Count("client_normalised_params", 1)
 		}
 	}
-
-	sel := opt.sel
-	if sel == nil {
-		sel = &phantoms.PhantomIPSelector{Networks: map[uint]*phantoms.SubnetConfig{
+	p.sel = opt.sel
+	if p.sel == nil {
+		p.sel = &phantoms.PhantomIPSelector{Networks: map[uint]*phantoms.SubnetConfig{
 			uint(cfg.Gen):          {WeightedSubnets: c01PBGroups(cfg.Groups)},
 			uint(cfg.Gen) + 100000: h.decoy,
 		}}
 	}
-	known := in.Gen == cfg.Gen
+	p.known = in.Gen == cfg.Gen
+	return p
+}
 
-	S, _ = h.station(in, sel, secret, tp)
+// reference derives R (as the station should answer) and Rk (as a client that knows the generation derives).
+func (h *c01Harness) reference(eff c01Input, cfg *c01Config, known bool) (R, Rk c01Out) {
+	var err error
 	if R, err = c01RefDerive(eff, cfg.Groups, known); err != nil {
-		h.t.Fatalf("infrastructure: reference failed on %+v: %v", in, err)
+		h.t.Fatalf("infrastructure: reference failed on %+v: %v", eff, err)
 	}
-	Rk := R
+	Rk = R
 	if !known {
 		if Rk, err = c01RefDerive(eff, cfg.Groups, true); err != nil {
-			h.t.Fatalf("infrastructure: reference failed on %+v: %v", in, err)
+			h.t.Fatalf("infrastructure: reference failed on %+v: %v", eff, err)
 		}
 	}
+	return R, Rk
+}
+
+// eval runs one single-family case through station, client and reference and judges it.
+func (h *c01Harness) eval(in c01Input, cfg *c01Config, opt c01Opt) (S, C, R c01Out) {
+	rec := h.rec
+	rec.Case(map[string]interface{}{"in": in, "cfg": cfg})
+	rec.Count("evaluations", 1)
+	p := h.prepare(in, cfg, opt)
+	msg := h.stationMsg(in, !in.V6, in.V6, p.secret, p.tp)
+	var reg *DecoyRegistration
+	regs, class := h.stationParse(p.sel, msg)
+	switch {
+	case class != "":
+		S.Err = class
+	case len(regs) != 1 || regs[0] == nil:
+		h.t.Fatalf("infrastructure: expected exactly one registration, got %d for %+v", len(regs), in)
+	default:
+		reg = regs[0]
+		S = h.stationObserve(in, reg)
+	}
+	R, Rk := h.reference(p.eff, cfg, p.known)
 
 	var seed []byte
 	var dRand io.Reader
+	var err error
 	if opt.keys != nil {
 		seed, dRand = opt.keys.ConjureSeed, opt.keys.Reader
-	} else if seed, dRand, err = c01RefKeys(secret, in.Lib); err != nil {
+	} else if seed, dRand, err = c01RefKeys(p.secret, in.Lib); err != nil {
 		h.t.Fatalf("infrastructure: %v", err)
 	}
-	C, fl := h.clientDerive(in, cfg.Groups, cl, seed, dRand, secret)
+	C, fl := h.clientDerive(in, cfg.Groups, p.cl, seed, dRand, p.secret)
 	if opt.keys != nil && C.Err == "" {
 		C.Seed = hex.EncodeToString(seed)
 	}
@@ -193,14 +227,62 @@ func (h *c01Harness) eval(in c01Input, cfg *c01Config, opt c01Opt) (S, C, R c01O
 	if in.V6 {
 		fam = "v6"
 	}
-	tag := fmt.Sprintf("%s:lib%d:%s", in.Tr, in.Lib, fam)
-	detail := func() interface{} {
-		return map[string]interface{}{"in": in, "sent_params": eff.P, "cfg": cfg, "station": S, "client": C, "reference": R}
-	}
 	refName := "reference"
 	if opt.frozen {
 		refName = "frozen-vector"
 	}
+	j := &c01Judgement{in: in, eff: p.eff, cfg: cfg, S: S, C: C, R: R, Rk: Rk, fl: fl, normalised: p.normalised,
+		tag: fmt.Sprintf("%s:lib%d:%s", in.Tr, in.Lib, fam), refName: refName}
+	h.judge(j)
+	S, C = j.S, j.C
+
+	// the derivation is a function of the message: ingesting the same message again (the station has by now
+	// computed the identifier of an earlier registration with the same secret) must give the same answer
+	if reg != nil && (in.Tr == "obfs4" || h.nEval%4 == 0) {
+		if regs2, class2 := h.stationParse(p.sel, msg); class2 != "" || len(regs2) != 1 || regs2[0] == nil {
+			rec.Violation("station-derivation-depends-on-history:refused-second-time:"+j.tag,
+				"the station refuses a message it accepted a moment ago", map[string]interface{}{"in": in, "cfg": cfg, "first": S, "second_refusal": class2})
+		} else {
+			S2 := h.stationObserve(in, regs2[0])
+			for _, f := range c01Diff(&S, &S2, false) {
+				rec.Violation("station-derivation-depends-on-history:"+f+":"+j.tag,
+					"ingesting the same message a second time yields a different "+f, map[string]interface{}{"in": in, "cfg": cfg, "first": S, "second": S2})
+			}
+			rec.Count("reingested_same_message", 1)
+		}
+	}
+	h.nEval++
+	return S, C, R
+}
+
+// c01Judgement carries one (family of a) case into the comparisons.
+type c01Judgement struct {
+	in, eff    c01Input
+	cfg        *c01Config
+	S, C, R    c01Out
+	Rk         c01Out
+	fl         *c01Flight
+	normalised bool
+	tag        string // <transport>:lib<k>:<family>[:dual(...)]
+	refName    string
+	pre        string // signature prefix ("" or "dual-stack:")
+	extra      interface{}
+}
+
+// judge compares station, client and reference for one derived registration.
+func (h *c01Harness) judge(j *c01Judgement) {
+	rec := h.rec
+	in, eff, cfg, fl, normalised, tag, refName := j.in, j.eff, j.cfg, j.fl, j.normalised, j.tag, j.refName
+	S, C, R, Rk := j.S, j.C, j.R, j.Rk
+	defer func() { j.S, j.C = S, C }()
+	detail := func() interface{} {
+		d := map[string]interface{}{"in": in, "sent_params": eff.P, "cfg": cfg, "station": S, "client": C, "reference": R}
+		if j.extra != nil {
+			d["dual_stack"] = j.extra
+		}
+		return d
+	}
+	viol := func(sig, msg string, det interface{}) { rec.Violation(j.pre+sig, msg, det) }
 
 	// ---- what the client's first flight proves about its secrets ----------------------------------
 	if fl != nil && C.Err == "" {
@@ -226,7 +308,7 @@ func (h *c01Harness) eval(in c01Input, cfg *c01Config, opt c01Opt) (S, C, R c01O
 			case !ok:
 				rec.Count("prefix_client_accepts_id_station_lacks", 1)
 			case !bytes.HasPrefix(fl.written, sp.StaticMatch):
-				rec.Violation(fmt.Sprintf("prefix-client-bytes!=station-static-match:pid%d", pid),
+				viol(fmt.Sprintf("prefix-client-bytes!=station-static-match:pid%d", pid),
 					"the bytes the client writes before the tag are not the prefix the station matches for that prefix id", detail())
 			default:
 				obf := fl.written[len(sp.StaticMatch):]
@@ -257,7 +339,7 @@ func (h *c01Harness) eval(in c01Input, cfg *c01Config, opt c01Opt) (S, C, R c01O
 			}
 			if S.Err == "" {
 				if found, ok := mark(S.OPub, S.ONode); ok && !found {
-					rec.Violation("station!=client:obfs4-keys(mark):"+tag,
+					viol("station!=client:obfs4-keys(mark):"+tag,
 						"the obfs4 client handshake does not carry the mark for the station's node id / public key", detail())
 				} else if ok {
 					rec.Count("obfs4_mark_found_with_station_keys", 1)
@@ -265,7 +347,7 @@ func (h *c01Harness) eval(in c01Input, cfg *c01Config, opt c01Opt) (S, C, R c01O
 			}
 			if Rk.Err == "" {
 				if found, ok := mark(Rk.OPub, Rk.ONode); ok && !found {
-					rec.Violation("client!=reference:obfs4-keys(mark):"+tag,
+					viol("client!=reference:obfs4-keys(mark):"+tag,
 						"the obfs4 client handshake does not carry the mark for the reference node id / public key", detail())
 				}
 			}
@@ -280,11 +362,11 @@ func (h *c01Harness) eval(in c01Input, cfg *c01Config, opt c01Opt) (S, C, R c01O
 		// still compared field by field below
 		rec.Count("station_refuses_legitimately.prefix-pre-v3-without-params", 1)
 	case R.Err == "" && S.Err != "":
-		rec.Violation("station-refuses:"+c01ShortClass(S.Err)+":"+tag,
+		viol("station-refuses:"+c01ShortClass(S.Err)+":"+tag,
 			"the station refuses a registration for which the published derivation ("+refName+") yields a phantom", detail())
 	case R.Err == "" && S.Err == "":
 		for _, f := range c01Diff(&S, &R, false) {
-			rec.Violation("station!="+refName+":"+f+":"+tag, "the station derives a different "+f+" than the "+refName, detail())
+			viol("station!="+refName+":"+f+":"+tag, "the station derives a different "+f+" than the "+refName, detail())
 		}
 	case R.Err != "" && S.Err == "":
 		rec.Count("station_derives_where_reference_refuses."+R.Err, 1)
@@ -302,12 +384,12 @@ func (h *c01Harness) eval(in c01Input, cfg *c01Config, opt c01Opt) (S, C, R c01O
 			if f == "port" && normalised {
 				continue
 			}
-			rec.Violation("station!=client:"+f+":"+tag, "station and client derive a different "+f, detail())
+			viol("station!=client:"+f+":"+tag, "station and client derive a different "+f, detail())
 		}
 	case S.Err != "" && C.Err == "":
 		legit := R.Err == c01ErrGen || R.Err == c01ErrPrefixLib || R.Err == c01ErrPortParams
 		if !legit && R.Err != "" {
-			rec.Violation("client-derives-where-station-refuses:"+R.Err+":"+tag,
+			viol("client-derives-where-station-refuses:"+R.Err+":"+tag,
 				"the client library derives a phantom for inputs on which station and reference refuse", detail())
 		}
 		if legit {
@@ -323,7 +405,7 @@ func (h *c01Harness) eval(in c01Input, cfg *c01Config, opt c01Opt) (S, C, R c01O
 			if f == "port" && normalised {
 				continue
 			}
-			rec.Violation("client!=reference:"+f+":"+tag, "the client library derives a different "+f+" than the reference", detail())
+			viol("client!=reference:"+f+":"+tag, "the client library derives a different "+f+" than the reference", detail())
 		}
 	}
 
@@ -340,7 +422,6 @@ func (h *c01Harness) eval(in c01Input, cfg *c01Config, opt c01Opt) (S, C, R c01O
 	if S.Err != "" {
 		rec.Count("station_refusals."+c01ShortClass(S.Err), 1)
 	}
-	return S, C, R
 }
 
 // c01PrefixPreV3Refusal: the station refuses a prefix registration of a library version < 3 with the
